@@ -283,6 +283,94 @@ def theorem_any(row, feat, t):
         B.append(f"    simpa [flatten_single] using main)")
     return name, "\n".join(L) + "\n" + split + "\n".join(B) + "\n"
 
+# ---------------------------------------------------------------------------------------------
+# clear_frame from any state (`--clear`, C07)
+
+def parse_clear(feat):
+    out = subprocess.run([MODEL, "e2eclear"] + ([feat] if feat != "v3" else []), capture_output=True, text=True, check=True).stdout
+    rows = []
+    for l in out.splitlines():
+        if not l.startswith("K "):
+            continue
+        f = l.split(" ")
+        d = dict(x.split("=", 1) for x in f[3:])
+        rows.append(dict(panel=f[1], fam=f[2], op="clear", bg=int(d["bg"]), d=d["d"], plane=int(d["plane"]), k=int(d["k"]), cmd=int(d["cmd"], 16),
+                         n=int(d["len"]), val=int(d["val"]), uniform=d["uniform"] == "true", nopanic=d["nopanic"] == "true", later=d["later"] == "true",
+                         comp=d["comp"].split(","), primary=d["primary"] == "true", want=int(d["want"]), targets=[(int(d["plane"]), "id", 0)]))
+    return rows
+
+def theorem_clear(row, feat, t):
+    fam = row["fam"]
+    plane, kt, ct, lt, v = row["plane"], row["k"], row["cmd"], row["n"], row["val"]
+    if not row["nopanic"]:
+        return None, "an assertion of clear_frame fails"
+    if not row["uniform"] or not row["later"]:
+        return None, "the plane is not written by exactly one uniform data block"
+    if lt > 20000:
+        return None, f"fill of {lt} bytes: the literal is too large for the elaborator's budget (oracle on histories decides)"
+    if row["primary"] and v != row["want"]:
+        return None, (f"clear_frame fills the primary plane with 0x{v:02x}; a frame uniformly painted in background {row['bg']} leaves 0x{row['want']:02x} there "
+                      "(the driver ignores the background colour or uses another convention: known-finding class)")
+    fe = "{}" if feat == "v3" else "{ v2 := true }"
+    P = f"(Drivers.{camel(row['panel'])}.panel {fe})"
+    r, o, pf = row["d"].split(",")
+    D = f"{{ bg := {row['bg']}, refresh := .{r}, isOn := {o}, partialFlag := {pf}, sleepMode := sm, oldData := od }}"
+    dtag = f"_{r}_{'on' if o == 'true' else 'off'}_{'pf' if pf == 'true' else 'nopf'}"
+    name = f"{row['panel']}_clear_bg{row['bg']}_from_any_state{dtag}_plane{plane}" + ("" if feat == "v3" else "_v2")
+    prog = f"(({P}.prog {D} .clear).getD [.panic])"
+    blocks = f"(blocksOf {prog})"
+    data = f"(List.replicate {lt} ({v} : UInt8))"
+    SIMP = f"simp only [Drivers.{camel(row['panel'])}.panel, driver_simp, Option.getD]"
+    NORM = f"(by first | ({SIMP}; rfl) | rfl)"
+    okc = "Or.inl rfl" if ct in (0x24, 0x10) else "Or.inr rfl"
+    cf = row["comp"]
+    L = ["set_option maxHeartbeats 1600000 in", "set_option maxRecDepth 1000000 in"]
+    if fam == "ssd":
+        xs, xe, ys, ye, stride, rows = map(int, cf[:6])
+        if cf[6] != "true" or xs != 0 or ys != 0:
+            return None, ("clear_frame does not re-program the RAM window / counter itself: from a state with another window the fill does not cover the plane "
+                          f"(window x {xs}..{xe}, y {ys}..{ye} at the data block)")
+        wb = xe + 1
+        L.append(f"theorem {name} (s : Ssd) (hw : Ssd.WfSize s) (ha : s.asleep = false) (he : s.entry = 3) (hx : s.xPix = {cf[7]})")
+        L.append(f"    (hs : s.stride = {stride}) (hr : s.rows = {rows}) (sm : UInt8) (od : List UInt8) :")
+        L.append(f"    {prog}.all (fun a => !a.isPanic) = true ∧")
+        L.append(f"    ∀ (j : Nat) (hj : j < {lt}),")
+        L.append(f"      (Ssd.planeOf {plane} ({blocks}.foldl Ssd.feed s))[(j / {wb}) * {stride} + j % {wb}]? = some ({v} : UInt8) := by")
+        L.append(f"  have haddr : Ssd.addr s = ⟨{cf[7]}, {stride}, {rows}, 3, s.xs, s.xe, s.ys, s.ye, s.cx, s.cy, false⟩ := by")
+        L.append(f"    simp only [Ssd.addr, ha, he, hx, hs, hr]")
+        L.append(f"  refine ⟨{NORM}, ?_⟩")
+        L.append(f"  have hk : {blocks}[{kt}]? = some (.c {ct} (List.flatten [{data}])) := {NORM}")
+        L.append(f"  have hpost : ({blocks}.drop ({kt} + 1)).all (fun b => !Ssd.touches (Ssd.planeOfCmd {ct}) b) = true := {NORM}")
+        L.append(f"  have hlen : (List.flatten [{data}]).length = {lt} := by simp")
+        L.append(f"  have hA : ({blocks}.take {kt}).foldl Ssd.feedA (Ssd.addr s) = ⟨{cf[7]}, {stride}, {rows}, 3, {xs}, {xe}, {ys}, {ye}, {xs}, {ys}, false⟩ := by")
+        L.append(f"    rw [haddr]; first | ({SIMP}; rfl) | rfl")
+        ev = "(by rw [hA]; first | done | rfl)"
+        L.append(f"  have main := Ssd.ssd_from_any_state _ s hw {kt} {ct} _ hk ({okc}) {lt} {wb} {stride} hlen {ev} {ev} {ev} {ev} {ev} hpost")
+        L.append(f"  intro j hj")
+        L.append(f"  have := main j (by rw [hlen]; exact hj)")
+        L.append(f"  simpa [Ssd.planeOfCmd, flatten_single, List.getElem_replicate] using this")
+    else:
+        if cf[2] != "true":
+            return None, "not ready even from an awake controller outside partial mode"
+        needp = cf[3] != "true"
+        L.append(f"theorem {name} (u : Uc) (ha : u.asleep = false)" + (" (hp : u.partialOn = false)" if needp else "") + f" (h14 : u.has14 = {cf[4]})")
+        L.append(f"    (hsz : (Uc.planeU {plane} u).size = {lt}) (sm : UInt8) (od : List UInt8) :")
+        L.append(f"    {prog}.all (fun a => !a.isPanic) = true ∧")
+        L.append(f"    (Uc.planeU {plane} ({blocks}.foldl Uc.feed u)).toList = {data} := by")
+        L.append(f"  have hflags : Uc.flags u = ⟨false, {'false' if needp else 'u.partialOn'}, {cf[4]}⟩ := by")
+        L.append(f"    simp only [Uc.flags, ha, h14" + (", hp" if needp else "") + "]")
+        L.append(f"  have hpl : Uc.planeOfCmd {ct} = {plane} := by decide")
+        L.append(f"  refine ⟨{NORM}, ?_⟩")
+        L.append(f"  have hk : {blocks}[{kt}]? = some (.c {ct} (List.flatten [{data}])) := {NORM}")
+        L.append(f"  have hpost : ({blocks}.drop ({kt} + 1)).all (fun b => !Uc.touches (Uc.planeOfCmd {ct}) b) = true := {NORM}")
+        L.append(f"  have hlen : (List.flatten [{data}]).length = {lt} := by simp")
+        L.append(f"  have main := Uc.uc_from_any_state _ u {kt} {ct} _ hk ({okc}) (by rw [hlen, hpl, hsz]) (by rw [hflags]; first | ({SIMP}; rfl) | rfl) hpost")
+        L.append(f"  rw [hpl] at main")
+        L.append(f"  simpa [flatten_single] using main")
+    return name, "\n".join(L) + "\n"
+
+CLEAR = "--clear" in sys.argv
+
 ANY = "--any" in sys.argv
 
 HIST = "--hist" in sys.argv
@@ -292,6 +380,9 @@ NS = "E2EH" if HIST else "E2E"
 if ANY:
     OUT = os.path.join(LEAN, "EpdVerif", "Props", "E2EA")
     NS = "E2EA"
+if CLEAR:
+    OUT = os.path.join(LEAN, "EpdVerif", "Props", "E2EC")
+    NS = "E2EC"
 
 def main():
     os.makedirs(OUT, exist_ok=True)
@@ -306,18 +397,20 @@ def main():
     zfile = {}
     index = []
     for feat in ("v3", "v2"):
-        for row in (parse_any(feat) if ANY else parse(feat, HIST)):
+        for row in (parse_clear(feat) if CLEAR else parse_any(feat) if ANY else parse(feat, HIST)):
             if feat == "v2" and row["panel"] != "epd2in13_v2":
                 continue
             for t in row["targets"]:
-                if ANY:
+                if CLEAR:
+                    key = f"{row['panel']}_clear_bg{row['bg']}_from_any_state_{row['d'].replace(',', '_')}_plane{t[0]}" + ("" if feat == "v3" else "_v2")
+                elif ANY:
                     key = f"{row['panel']}_{row['op']}_from_any_state_{row['d'].replace(',', '_')}_plane{t[0]}" + ("" if feat == "v3" else "_v2")
                 else:
                     key = f"{row['panel']}_{row['op']}" + ("" if row["hist"] == "fresh" else f"_after_{row['hist']}") + f"_plane{t[0]}" + ("" if feat == "v3" else "_v2")
                 if key in dropped:
                     continue
                 ZS_USED.clear()
-                name, txt = (theorem_any if ANY else theorem)(row, feat, t)
+                name, txt = (theorem_clear if CLEAR else theorem_any if ANY else theorem)(row, feat, t)
                 if name is None:
                     dropped[key] = txt
                     continue
@@ -365,7 +458,7 @@ def build_and_drop():
         r = subprocess.run(["lake", "build"] + [f"EpdVerif.Props.{NS}.{m}" for m in mods], cwd=LEAN, capture_output=True, text=True)
         out = r.stdout + r.stderr
         bad = {}
-        for m in re.finditer(r"error: (EpdVerif/Props/E2E[HA]?/(\w+)\.lean):(\d+):\d+: ([^\n]*)", out):
+        for m in re.finditer(r"error: (EpdVerif/Props/E2E[HAC]?/(\w+)\.lean):(\d+):\d+: ([^\n]*)", out):
             path, mod, line, msg = m.group(1), m.group(2), int(m.group(3)), m.group(4)
             src = open(os.path.join(LEAN, path)).read().splitlines()
             # the theorem the error line belongs to
